@@ -2,8 +2,12 @@ package zzverif
 
 import (
 	"context"
+	"sync/atomic"
+
 	"encoding/json"
 	"fmt"
+	"github.com/ory/keto/internal/check"
+	"github.com/ory/keto/internal/relationtuple"
 	"net/url"
 	"runtime"
 	"strings"
@@ -145,6 +149,9 @@ func famConc(t *testing.T) {
 			t.Run(fmt.Sprintf("c%d", round), func(t *testing.T) { cancelRound(t, &in, round, S, refs[round], durs[round], out) })
 		}
 		if in.Only == "cancel" {
+			if round%9 == 2 {
+				t.Run(fmt.Sprintf("b%d", round), func(t *testing.T) { burstRound(t, &in, round, S, out) })
+			}
 			continue
 		}
 		t.Run(fmt.Sprintf("r%d", round), func(t *testing.T) {
@@ -305,6 +312,85 @@ func cancelRound(t *testing.T, in *concIn, round int, S []int, ref []string, dur
 	}
 	waitNoKetoGoroutines(2e9)
 	out.write(map[string]any{"cancel_round": round, "requests": 2 * len(reqs), "abandoned": gaveUp, "diffs": diffs})
+}
+
+// burstRound: more nested checks in flight at the same moment than any fixed
+// pool of workers, slots or connections could hold (N = 320). Every request is
+// parked at its first storage call until all N have arrived (or 3 s have
+// passed), then all are released; storage calls are serialised so that the
+// database is not the bottleneck. Each request must return, within burstGrace,
+// the answer it returns alone.
+const burstN = 320
+const burstGrace = 20 * time.Second
+
+func burstRound(t *testing.T, in *concIn, round int, S []int, out *ndWriter) {
+	reg := newRegistry(t, regOpts{opl: in.Def.Cfg.opl(), gdepth: 8})
+	var stored []*ketoapi.RelationTuple
+	for _, i := range S {
+		stored = append(stored, in.Def.U[i-1].api())
+	}
+	writeOrderedRaw(t, reg, stored)
+	deps, _ := newEngineDeps(reg)
+	eng := check.NewEngine(deps)
+	its := make([]*relationtuple.RelationTuple, burstN)
+	alone := make([]byte, burstN)
+	for i := range its {
+		its[i] = internalTuple(t, reg, in.Queries[(i+round)%len(in.Queries)].api())
+		ctx, cancel := context.WithCancel(context.Background())
+		alone[i] = memCode(eng.CheckRelationTuple(ctx, its[i], 0))
+		cancel()
+	}
+	waitNoKetoGoroutines(2e9)
+	var arrived int32
+	allHere := make(chan struct{})
+	var once sync.Once
+	db := make(chan struct{}, 1)
+	results := make([]byte, burstN)
+	var wg sync.WaitGroup
+	for i := range its {
+		wg.Add(1)
+		go func(i int) {
+			defer wg.Done()
+			rs := &runState{}
+			rs.pre = func(k int) {
+				if k == 1 {
+					if atomic.AddInt32(&arrived, 1) == burstN {
+						once.Do(func() { close(allHere) })
+					}
+					select {
+					case <-allHere:
+					case <-time.After(3 * time.Second):
+						once.Do(func() { close(allHere) })
+					}
+				}
+				db <- struct{}{}
+			}
+			rs.obs = func(string, any, any, error) { <-db }
+			ctx, cancel := context.WithTimeout(withRunState(context.Background(), rs), burstGrace)
+			defer cancel()
+			r := eng.CheckRelationTuple(ctx, its[i], 0)
+			results[i] = memCode(r)
+			if ctx.Err() != nil {
+				results[i] = 'H'
+			}
+		}(i)
+	}
+	wg.Wait()
+	bad, hung := 0, 0
+	var first map[string]any
+	for i := range its {
+		if results[i] != alone[i] {
+			bad++
+			if results[i] == 'H' {
+				hung++
+			}
+			if first == nil {
+				first = map[string]any{"query": in.Queries[(i+round)%len(in.Queries)].api().String(), "alone": string(alone[i]), "in_the_burst": string(results[i])}
+			}
+		}
+	}
+	waitNoKetoGoroutines(2e9)
+	out.write(map[string]any{"burst_round": round, "requests": burstN, "different": bad, "not_returned_in_20s": hung, "first": first})
 }
 
 // mixedRound: reads and writes released together against a registry that has
